@@ -59,13 +59,15 @@ func GenWorld(rng *rand.Rand, o WorldOpts) *World {
 	// locations and maps
 	if !o.NoLocations && (rng.Intn(5) != 0 || o.ForceECS) {
 		// location ids: ordinary ones plus pairs whose bytes collide when printed without padding or separators
-		// ({1,23}/{12,3} -> "123"; {0,11}/{0,1} next to a type number), as a cache key might do
+		// ({1,23}/{12,3} -> "123"; {0,11}/{0,1} next to a type number), as a cache key might do; and ids differing by letter case only
 		all := []string{"aa", "bb", "c\x00", "\x00\x07"}
-		switch rng.Intn(4) {
+		switch rng.Intn(5) {
 		case 0:
 			all = []string{"\x01\x17", "\x0c\x03", "aa", "\x00\x07"}
 		case 1:
 			all = []string{"\x00\x0b", "\x00\x01", "bb", "\x01\x10"}
+		case 2:
+			all = []string{"ab", "Ab", "aB", "\x00M"} // ids that are equal after folding letter case (names are folded, ids are not)
 		}
 		w.Locs = all[:1+rng.Intn(3)]
 		if all[0] != "aa" {
